@@ -187,10 +187,11 @@ func mergeASAACLs(ab *cmdsPair, name, prefix string) {
 		i := len(acl) - 1
 		for ; i >= 0; i-- {
 			if strings.Contains(acl[i].parsed, "$NAME extended permit") {
-				i++
 				break
 			}
 		}
+		// Add at beginning if no permit line was found.
+		i++
 		acl = append(acl[:i], append(appendACL, acl[i:]...)...)
 	}
 	// Store changed ACL.
@@ -222,10 +223,11 @@ func mergeIOSACLs(ab *cmdsPair, name, prefix string) {
 		i := len(acl) - 1
 		for ; i >= 0; i-- {
 			if strings.HasPrefix(acl[i].parsed, "permit ") {
-				i++
 				break
 			}
 		}
+		// Add at beginning if no permit line was found.
+		i++
 		acl = append(acl[:i], append(appendACL, acl[i:]...)...)
 	}
 	// Store changed ACL.
